@@ -67,6 +67,11 @@ KINDS = {
     # records on which an EVID and an MDV column disagree about "observation":
     'om': dict(evid=0, dose=False, mdv=1),  # observation event whose DV is missing (MDV=1)
     'x': dict(evid=2, dose=False, mdv=0),  # other-type event that carries MDV=0
+    # doses with more than one additional dose / a dosing interval of more than one time step
+    'da2': dict(evid=1, dose=True, addl=2),
+    'dai2': dict(evid=1, dose=True, addl=1, ii=2),
+    'Ra2': dict(evid=4, dose=True, addl=2),
+    'Rai2': dict(evid=4, dose=True, addl=1, ii=2),
 }
 
 # schema: which optional columns exist, the name of the id column, the model around the data
@@ -119,12 +124,22 @@ SCHEMAS = {
                      only='obs'),
     'subj_mdv_evid': dict(model='iv', id='SUBJ', cols=['MDV', 'EVID'], kinds=['o', 'om', 'x', 'd'],
                           only='obs', small=True),
+    # ADDL/II with SEVERAL additional doses (ADDL=2, II=1) and with a dosing interval that spans
+    # other records (ADDL=1, II=2), on ordinary doses and on EVID=4 reset-and-dose records: the
+    # additional doses interleave with the records that follow their dose record.  Only the
+    # expansion of the additional doses is evaluated on these datasets: see ONLY_FUNCS.
+    'addl_multi': dict(model='iv', id='ID', cols=['ADDL', 'II'], kinds=['o', 'da2', 'dai2'],
+                       only='expand'),
+    'evid_addl_multi': dict(model='iv', id='ID', cols=['EVID', 'ADDL', 'II'],
+                            kinds=['o', 'da2', 'dai2', 'Ra2', 'Rai2'], only='expand'),
 }
 
 # the derivations evaluated on the schemas with only='obs'
 OBS_FUNCS = ('get_mdv', 'get_evid', 'get_observations', 'get_number_of_observations',
              'get_number_of_observations_per_individual', 'get_doses', 'get_baselines',
              'list_time_varying_covariates')
+# schema key 'only' -> the derivations evaluated on the datasets of the schema
+ONLY_FUNCS = {'obs': OBS_FUNCS, 'expand': ('expand_additional_doses',)}
 
 # Rendering of the enumerated time t (0, 1, 2, ...) as NM-TRAN items.  The record walk works on
 # the elapsed hours; the items are written from the hours, never parsed back.
@@ -226,7 +241,7 @@ def _records(case):
                 amt=float(amts[gi % 2]) if dose else 0.0,
                 dv=10.0 + gi,
                 addl=K.get('addl', 0),
-                ii=1 if K.get('addl', 0) else 0,
+                ii=K.get('ii', 1) if K.get('addl', 0) else 0,
                 ss=K.get('ss', 0),
                 cmt=cmt,
                 admid_in=last_admid,
@@ -649,7 +664,7 @@ def _call(ctx, fname, df0, di, **kwargs):
     from pharmpy.model import DatasetError
 
     sch = SCHEMAS[ctx.case['schema']]
-    if sch.get('only') == 'obs' and fname not in OBS_FUNCS:
+    if sch.get('only') and fname not in ONLY_FUNCS[sch['only']]:
         return None, _NOT_EVALUATED
     model = _fresh_model(ctx.case, df0, di)
     given = model.dataset
@@ -888,7 +903,9 @@ def _check_case(case):
         _check_translated(ctx, df0, res, recs, sch, idname, desc)
 
     # ---- get_baselines / list_time_varying_covariates (covariate variants) ----------
-    for cov in ('const', 'first', 'last'):
+    # (not evaluated on the schemas that are restricted to other derivations)
+    covariate_funcs = not sch.get('only') or 'get_baselines' in ONLY_FUNCS[sch['only']]
+    for cov in ('const', 'first', 'last') if covariate_funcs else ():
         dfc, varying = _build_df(case, cov)
         if cov != 'const' and not varying:
             continue
@@ -936,9 +953,12 @@ def _check_case(case):
     # ---- get_baselines on covariates that are missing on some records --------------------
     # (docstring of get_baselines: "Baseline is taken to be the first row even if that has a
     # missing value"; the record walk takes the first record of the individual as it stands)
-    dfm = _build_df_missing(case)
-    dim = _build_di(dfm, idname, case['schema'])
-    res, err = _call(ctx, 'get_baselines', dfm, dim)
+    if covariate_funcs:
+        dfm = _build_df_missing(case)
+        dim = _build_di(dfm, idname, case['schema'])
+        res, err = _call(ctx, 'get_baselines', dfm, dim)
+    else:
+        res, err = None, _NOT_EVALUATED
     if err is None:
         why = _baselines_differ(res, dfm, recs, idname)
         if why:
@@ -1426,6 +1446,7 @@ def bounded_dataset_derivations(tier='quick'):
     nsch = len([1 for sch in SCHEMAS.values() if extra or not sch.get('thorough')])
     nsmall = len([1 for sch in SCHEMAS.values() if sch.get('small')])
     nobs = len([1 for sch in SCHEMAS.values() if sch.get('only') == 'obs'])
+    nexp = len([1 for sch in SCHEMAS.values() if sch.get('only') == 'expand'])
     bound = (
         'all event datasets over %d column schemas (optional EVID/MDV/RATE/ADDL+II/SS/CMT/ADMID '
         'columns, id column ID or SUBJ, one schema without dose column, TIME as number or as '
@@ -1445,12 +1466,14 @@ def bounded_dataset_derivations(tier='quick'):
         '%d of the schemas have BOTH an EVID and an MDV column (either column order) with the '
         'record kinds observation, dose, EVID=0 with MDV=1 and EVID=2 with MDV=0: on these only '
         'get_mdv, get_evid, get_observations, the observation counts, get_doses, get_baselines '
-        'and list_time_varying_covariates are evaluated'
+        'and list_time_varying_covariates are evaluated; %d of the schemas (ADDL/II without and '
+        'with an EVID column) have doses with ADDL=2 II=1 and with ADDL=1 II=2, on ordinary doses '
+        'and on EVID 4 records: on these only expand_additional_doses is evaluated'
         % (nsch, ' (DATE, DAT1, DAT2, DAT3)' if extra else '', 3 + extra, 2 + extra, nsmall,
            2 + extra, 3 + extra,
            'datasets with <=3 records also with 0.5 / 0.25 only and with 100 / 50 only' if extra else
            'one-individual datasets with <=2 records also with amounts 0.5 / 0.25 only',
-           nobs)
+           nobs, nexp)
     )
     samples = [repr(cases[i])[:200] for i in (0, len(cases) // 2, len(cases) - 1)]
     return {
@@ -2496,6 +2519,110 @@ def _syn_case(spec, tmpdir):
     return []
 
 
+# ---- write/read cycle with special characters in the name of the data file ------------------
+#
+# The name of the file a dataset is written to ends up in the $DATA record of the generated code.
+# NM-TRAN control stream syntax gives several characters a meaning there (";" starts a comment,
+# space and "," separate options, "(" ")" "=" delimit option lists, quotes delimit a file name) and
+# reserves the option keywords; pharmpy has to quote (or otherwise protect) such a name so that the
+# generated code refers to the file that was written.  Whatever the name: the dataset that is read
+# back through the generated code is the model's dataset.
+
+# every printable ASCII character that is neither a letter nor a digit, except the path separator
+_FN_CHARS = [c for c in map(chr, range(32, 127)) if not c.isalnum() and c != '/']
+# the option keywords of $DATA (data_record.lark) and their accepted abbreviations
+_FN_KEYWORDS = ['IGNORE', 'NULL', 'ACCEPT', 'NOWIDE', 'WIDE', 'CHECKOUT', 'RECORDS', 'LRECL',
+                'NOREWIND', 'REWIND', 'NOOPEN', 'LAST20', 'TRANSLATE', 'BLANKOK', 'MISDAT',
+                'IGN', 'ACC', 'NUL']
+_FN_STEPS = [
+    # how the dataset gets its file
+    'write_csv(path=<name>) -> write_model(run1.mod)',  # the data file has the name
+    'write_model(<stem>.mod)',  # the model file has the name, its dataset is written next to it
+]
+
+
+def _fn_names(tier):
+    """(name, step kinds) in enumeration order"""
+    out = []
+    for c in _FN_CHARS:
+        out.append((f'da{c}ta.csv', (0, 1)))  # inside the name
+    for c in _FN_CHARS:
+        out.append((f'{c}data.csv', (0, 1)))  # first character
+    for c in _FN_CHARS:
+        out.append((f'data.cs{c}', (0,)))  # last character
+    for c in _FN_CHARS:
+        out.append((f's{c}b/data.csv', (0,)))  # in the name of a sub directory (relative path)
+    for kw in _FN_KEYWORDS:
+        out.append((f'{kw}.csv', (0, 1)))
+        out.append((kw, (0,)))
+        out.append((f'x{kw}x.csv', (0, 1)))
+        out.append((f'{kw.lower()}.csv', (0, 1)))
+    if tier == 'thorough':
+        for c1 in _FN_CHARS:
+            for c2 in _FN_CHARS:
+                if "'" in (c1, c2) and '"' in (c1, c2):
+                    continue  # documented: a name cannot have both kinds of quotes (ValueError)
+                out.append((f'da{c1}{c2}ta.csv', (0,)))
+    return out
+
+
+def _enumerate_filenames(tier):
+    for name, kinds in _fn_names(tier):
+        for steps in kinds:
+            yield {'fam': 'fname', 'name': name, 'steps': steps}
+
+
+def _fname_case(spec, tmpdir):
+    from pharmpy.modeling import read_model, write_csv, write_model
+
+    fid = f'{WRITE_CSV_PY}:write_csv'
+    clause = ('a dataset written for a model to a file whose name (or relative path) contains '
+              'characters or keywords with a meaning in $DATA is read back unchanged through the '
+              'generated code')
+    df = pd.DataFrame({'ID': [1, 2], 'TIME': [0.0, 1.5], 'DV': [0.5, 2.0]})
+    name = spec['name']
+    d = tempfile.mkdtemp(dir=tmpdir)
+    shown = f'file name {name!r}, calls {_FN_STEPS[spec["steps"]]} -> read_model'
+    code = None
+    try:
+        model = _roundtrip_base().replace(dataset=df)
+        if spec['steps'] == 0:
+            datapath = os.path.join(d, name)
+            os.makedirs(os.path.dirname(datapath), exist_ok=True)
+            modelpath = os.path.join(d, 'run1.mod')
+            model = write_csv(model, path=datapath, force=True)
+        else:
+            stem = name[:-4] if name.endswith('.csv') else name
+            modelpath = os.path.join(d, stem + '.mod')
+        model = write_model(model, modelpath, force=True)
+        with open(modelpath) as fh:
+            code = fh.read()
+        back = read_model(modelpath).dataset
+    except Exception as e:  # noqa: BLE001
+        datarec = [ln for ln in (code or '').split('\n') if ln.startswith('$DATA')]
+        return [(fid, f'no internal error [{type(e).__name__}]',
+                 f'{type(e).__name__}: {e} for {shown}; generated {datarec}')]
+    ok = isinstance(back, pd.DataFrame) and list(back.columns) == list(df.columns)
+    ok = ok and len(back) == len(df)
+    if ok:
+        for c in df.columns:
+            try:
+                x = [float(v) for v in back[c].tolist()]
+            except (TypeError, ValueError):
+                ok = False
+                break
+            if not _same_numbers(x, [float(v) for v in df[c].tolist()]):
+                ok = False
+    if not ok:
+        got = back.to_dict(orient='list') if isinstance(back, pd.DataFrame) else repr(back)
+        datarec = [ln for ln in code.split('\n') if ln.startswith('$DATA')]
+        written = sorted(os.path.relpath(os.path.join(r, f), d)
+                         for r, _, fs in os.walk(d) for f in fs)
+        return [(fid, clause, f'read back {got} for {shown}; generated {datarec}; files written '
+                 f'{written}')]
+    return []
+
+
 def _file_case(spec, tmpdir):
     if spec['fam'] == 'model':
         return _model_read_case(spec, tmpdir)
@@ -2503,6 +2630,8 @@ def _file_case(spec, tmpdir):
         return _syn_case(spec, tmpdir)
     if spec['fam'] == 'cycle':
         return _cycle_case(spec, tmpdir)
+    if spec['fam'] == 'fname':
+        return _fname_case(spec, tmpdir)
     return _roundtrip_case(spec, tmpdir)
 
 
@@ -2581,7 +2710,7 @@ def bounded_dataset_reading(tier='quick'):
     # C, D, E: through a model
     fspecs = (list(_enumerate_model_reads(tier)) + list(_enumerate_roundtrip(tier))
               + list(_enumerate_cycles(tier)) + list(_enumerate_roundtrip_tokens(tier))
-              + list(_enumerate_synonym_filters(tier)))
+              + list(_enumerate_synonym_filters(tier)) + list(_enumerate_filenames(tier)))
     for chunk in _run_pool(_file_work, list(enumerate(fspecs)), 12):
         for idx, r in chunk:
             if r is None:
@@ -2620,7 +2749,13 @@ def bounded_dataset_reading(tier='quick'):
         '%d $INPUT forms with synonyms (DV=CONC, CONC=DV, ID=SUBJ, SUBJ=ID, WT=AMT, none) x '
         'IGNORE/ACCEPT filter on each column named by its reserved name or its synonym x text '
         'operators %s x values NO<name>%s for every name of the $INPUT (%s) on a three-row file '
-        'whose middle row has the value as item, plus a numeric filter .GT. 2 per name'
+        'whose middle row has the value as item, plus a numeric filter .GT. 2 per name; '
+        'write/read cycle of a 2-row dataset written to a file named with each of the %d printable '
+        'ASCII characters that are neither letter, digit nor "/" inside the name, as its first and '
+        'as its last character and inside the name of a sub directory, and named after each of %d '
+        '$DATA option keywords / abbreviations (as stem, without extension, inside the stem, in '
+        'lower case)%s, the name given to write_csv or - as the name of the model file next to '
+        'which write_model writes the dataset - to write_model alone'
         % (maxlen, 'two-row (also with missing data token 5; and three-row over 7 forms)'
            if tier == 'thorough' else 'two-row',
            len(_B_ITEMS), len(_INPUTS), len(_DATA_OPTS), len(_DATA_TEXTS) + 1, len(_RT_FLOATS),
@@ -2629,7 +2764,9 @@ def bounded_dataset_reading(tier='quick'):
            '.EQ. .NE. == /=' if tier == 'thorough' else '.EQ. .NE.',
            ', <name>1, <name>' if tier == 'thorough' else '',
            'unquoted and in single / double quotes' if tier == 'thorough'
-           else 'unquoted; the value made from the filter label also in quotes')
+           else 'unquoted; the value made from the filter label also in quotes',
+           len(_FN_CHARS), len(_FN_KEYWORDS),
+           ', and with every pair of such characters inside the name' if tier == 'thorough' else '')
     )
     samples = [repr(specs[0])[:160], repr(specs[len(specs) // 2])[:160], repr(fspecs[-1])[:160]]
     return {'cases': cases, 'nontrivial': nontriv, 'bound': bound, 'samples': samples,
@@ -2641,7 +2778,7 @@ def bounded_dataset_reading_replay(rp):
     spec = c['spec']
     if spec['fam'] == 'number':
         r = _number_case(spec['s'])
-    elif spec['fam'] in ('model', 'roundtrip', 'cycle', 'syn'):
+    elif spec['fam'] in ('model', 'roundtrip', 'cycle', 'syn', 'fname'):
         tmpdir = tempfile.mkdtemp(prefix='b_data_')
         try:
             r = _file_case(spec, tmpdir)
